@@ -121,21 +121,39 @@ def probe():
     return out
 
 
-def build_chain(depth, files, offsets, expr):
-    """h1 (innermost; evaluates the probe and then `expr` on ONE source line) … h<depth> (outermost; releases env.done).
+INNER = {None: "{e}", "genexpr": "next(({e}) for _ in (0,))", "lambda": "(lambda: {e})()", "listcomp": "[({e}) for _ in (0,)][0]",
+         "setcomp": "list({{({e}) for _ in (0,)}})[0]", "dictcomp": "{{0: ({e}) for _ in (0,)}}[0]"}
+
+
+def inner_frame(inner):
+    """the frame (by code name) the creating expression runs in, inside h1 - None if it runs in h1's own frame (comprehensions
+    are inlined since Python 3.12, PEP 709)"""
+    if inner in ("genexpr", "lambda"):
+        return "<%s>" % inner
+    if inner in ("listcomp", "setcomp", "dictcomp") and sys.version_info < (3, 12):
+        return "<%s>" % inner
+    return None
+
+
+def build_chain(depth, files, offsets, expr, inner=None):
+    """h1 (innermost; evaluates the probe and then `expr` on ONE source line - directly, or inside a generator expression, a
+    lambda or a comprehension on that line) … h<depth> (outermost; releases env.done).
     Returns (entry function, statically known [(name, path, line)] innermost first)."""
     ns, static = {}, []
     for k in range(1, depth + 1):
         pad = "\n" * offsets[k - 1]
         last = k == depth
         if k == 1:
+            whole = INNER[inner].format(e=f"(env.__setattr__('probed', probe()), {expr})[1]")
             src = (pad + "def h1(env, probe):\n"
                          "    try:\n"
-                         f"        env.result = (env.__setattr__('probed', probe()), {expr})[1]\n"
+                         f"        env.result = {whole}\n"
                          "    except BaseException as e:\n"
                          "        env.error = e\n"
                    + ("    finally:\n        env.done.release()\n" if last else ""))
             line = offsets[0] + 3
+            if inner_frame(inner):
+                static.append((inner_frame(inner), files[0], line))
         elif last:
             src = pad + (f"def h{k}(env, probe):\n    try:\n        return h{k - 1}(env, probe)\n"
                          "    finally:\n        env.done.release()\n")
@@ -398,7 +416,7 @@ SITE_FN = {"planCall": "call", "planGather": "gather", "planUnpack": "unpack", "
 ANGLE = ["<string>", "<stdin>", "<doctest user_mod[3]>", "<generated pipeline>"]
 
 
-def gen_case(rng, name, depth, threaded, ipython=False, angle=False):
+def gen_case(rng, name, depth, threaded, ipython=False, angle=False, inner=None):
     files = [rng.choice(FILES) for _ in range(depth)]
     if ipython and depth >= 2:
         files[rng.randint(1, depth - 1)] = IPY
@@ -407,8 +425,12 @@ def gen_case(rng, name, depth, threaded, ipython=False, angle=False):
         for k in range(1, depth):
             if rng.random() < 0.4:
                 files[k] = rng.choice(ANGLE)
-    return {"scenario": name, "depth": depth, "threaded": threaded, "files": files,
+    case = {"scenario": name, "depth": depth, "threaded": threaded, "files": files,
             "offsets": [rng.randint(0, 400) for _ in range(depth)], "variant": rng.randint(0, 10 ** 6)}
+    # `inner`: where on its line the creating expression sits - directly in the helper, or in a generator expression / lambda /
+    # comprehension
+    case["inner"] = inner
+    return case
 
 
 def run_case(case):
@@ -418,7 +440,7 @@ def run_case(case):
     env.decoys = [env.plan.call(ok), env.plan.lit(0)]          # other nodes, created on other lines
     env.decoys.append(env.plan.call(ok, env.decoys[0]))
     expr, go, expect = fn(env, random.Random(case["variant"]))
-    entry, static = build_chain(case["depth"], case["files"], case["offsets"], expr)
+    entry, static = build_chain(case["depth"], case["files"], case["offsets"], expr, case.get("inner"))
     obs = {"site": site, "phase": phase, "static": static}
     with FrameRecorder() as rec:
         run_chain(entry, env, case["threaded"])
@@ -445,7 +467,7 @@ def judge(case, obs, max_depth):
     user = obs["user"]
     if user is None or user[:len(obs["static"])] != obs["static"]:
         raise RuntimeError(f"harness: probe {user} does not start with the generated helpers {obs['static']}")
-    if case["threaded"] and len(user) != case["depth"]:
+    if case["threaded"] and len(user) != case["depth"] + (1 if inner_frame(case.get("inner")) else 0):
         raise RuntimeError("harness: thread stack is not exactly the helper chain")
     if err is None:
         return "run did not fail although a symbolic call raised"
@@ -672,6 +694,12 @@ def _cases(ctx):
         for _ in range(1500):
             cases.append(gen_case(rng, rng.choice(list(SCENARIOS)), rng.randint(1, 8), rng.random() < 0.85,
                                   ipython=rng.random() < 0.25))
+    # the creating expression inside a generator expression / lambda / comprehension on its line (a stream of its own)
+    rng2 = random.Random(ctx.seed * 7919 + 23)
+    for name in SCENARIOS:
+        for depth, inner in ([(1, "genexpr"), (3, "lambda"), (4, "genexpr"), (6, "listcomp"), (2, "dictcomp")] if quick else
+                             [(d, i) for d in (1, 2, 3, 4, 5, 7) for i in ("genexpr", "lambda", "listcomp", "setcomp", "dictcomp")]):
+            cases.append(gen_case(rng2, name, depth, rng2.random() < 0.8, inner=inner))
     return cases
 
 
